@@ -148,6 +148,51 @@ def run(tier):
                         chk.nontrivial.add(c["text_used"] + json.dumps(g["mono"]))
         if succeeded:
             chk.sample({"text": c["text_used"], "settings_ok": sorted({nm for l in succeeded.values() for nm, _, _ in l})}, limit=3)
+    # ---- exactness flag of derived goals (central moments, cumulants) under the numeric-root options: a goal built from several
+    #      raw moments must be reported rounded as soon as one of them is
+    flag_cases = [c for c in cases if c.get("corpus", "").startswith(("c17_", "c04_", "f02_"))][:10] + cases[-4:]
+    ftasks = []
+    fmeta = []
+    for c in flag_cases:
+        body_vars = sorted(H.stmts_assigned(c["program"]["body"]))
+        v = next((x for x in ("x", "a", "y", "b", "c") if x in body_vars), None)
+        if not v:
+            continue
+        for opt in (["--numeric_roots"], ["--numeric_croots"]):
+            ftasks.append({"fn": "harness.tasks.analyze:cli_goals",
+                           "args": {"text": case_text(c), "goal_strs": [f"E({v})", f"E({v}**2)", f"c2({v})", f"k2({v})"], "at_n": 4,
+                                    "extra_args": opt}})
+            fmeta.append((c, v, opt))
+    fouts = run_tasks(ftasks, timeout=60 if quick else 150) if (lean_ok and ftasks) else []
+    n_flags = 0
+    for (c, v, opt), out in zip(fmeta, fouts):
+        if out["status"] != "ok" or out["result"].get("error"):
+            chk.count("flags:" + (out["status"] if out["status"] != "ok" else "refused"))
+            continue
+        lines = out["result"]["lines"]
+        flags = {}
+        cur = None
+        for l in lines:
+            for key in (f"E({v})", f"E({v}**2)", f"c2({v})", f"k2({v})", f"{v} =", f"{v}**2 ="):
+                if l.startswith(key + " =") or l.startswith(key):
+                    if "| n=" not in l:
+                        cur = key.replace(" =", "")
+            if l.startswith("Solution is") and cur:
+                flags.setdefault(cur, "exact" if "exact" in l else "rounded")
+        raw = [flags.get(f"E({v})", flags.get(v)), flags.get(f"E({v}**2)", flags.get(f"{v}**2"))]
+        if None in raw:
+            chk.count("flags:unparsed")
+            continue
+        n_flags += 1
+        for derived in (f"c2({v})", f"k2({v})"):
+            fl = flags.get(derived)
+            if fl is None:
+                continue
+            if "rounded" in raw and fl == "exact":
+                chk.violation(f"{' '.join(opt)}: {derived} is reported as exact although a raw moment it is built from is rounded "
+                              f"(E({v}): {raw[0]}, E({v}**2): {raw[1]})",
+                              {"case": pipeline.case_to_json(c), "text": case_text(c), "options": opt, "flags": flags, "lines": lines[:40]})
+    chk.obligation("correspondence:exactness-flag-of-derived-goals", lean_ok and (n_flags > 0 or not ftasks), {"runs": n_flags})
     chk.obligation("correspondence:option-matrix-agrees-with-exact-moments", lean_ok and n_compared > 0 and
                    chk.counts.get("harness-error", 0) == 0, {"goal_setting_pairs_compared": n_compared})
     chk.assumptions = ["'one side refuses' is recorded, not a violation (the property is conditional on both succeeding)",
